@@ -78,3 +78,43 @@ theorem kconn_content {A B : Table D} {K : Nat} {st : Bool} (join : D → D → 
   | step _ r ih => exact KConn.step ih (krel_content join wfB hle _ _ r)
 
 end Compress
+
+namespace Compress
+open Walk (Dir Conn Rel)
+open Filter (has)
+variable {D : Type}
+
+/-- content up to the extension bytes of self-complementary keys (which good links never read) -/
+def ContentLeW (st : Bool) (A B : Table D) : Prop :=
+  ∀ ea ∈ A, ∃ eb ∈ B, ea.key = eb.key ∧ ea.data = eb.data ∧
+    ((!st && isPalindrome ea.key) = false → ∀ d, ea.exts.dirBits d = eb.exts.dirBits d)
+
+theorem krel_contentW {A B : Table D} {K : Nat} {st : Bool} (join : D → D → Bool) (wfB : WF B K st) (hle : ContentLeW st A B)
+    (k1 k2 : Seq) (h : KRel A st join k1 k2) : KRel B st join k1 k2 := by
+  obtain ⟨x, y, ⟨d, d', hl⟩, hk1, hk2⟩ := h
+  obtain ⟨ex, ey, b, f⟩ := linkOf_inv A st join hl
+  obtain ⟨ex', hxm, kx, dx, bx⟩ := hle ex (List.mem_of_getElem? f.hx)
+  obtain ⟨ey', hym, ky, dy, by'⟩ := hle ey (List.mem_of_getElem? f.hy)
+  obtain ⟨x', hx'⟩ := mem_index B ex' hxm
+  obtain ⟨y', hy'⟩ := mem_index B ey' hym
+  obtain ⟨ey0, hy0, hkey⟩ := findId_some f.hfind
+  rw [f.hy] at hy0; cases hy0
+  have bx := bx f.palx
+  have by' := by' (by rw [hkey]; exact f.paly)
+  refine ⟨x', y', ⟨d, d', ?_⟩, by rw [keyOf_of_get hx', ← kx, ← keyOf_of_get f.hx]; exact hk1,
+    by rw [keyOf_of_get hy', ← ky, ← keyOf_of_get f.hy]; exact hk2⟩
+  apply linkOf_intro B st join (ex := ex') (ey := ey') (b := b)
+  refine ⟨hx', by rw [← bx]; exact f.cntx, by rw [← kx]; exact f.palx, by rw [← bx]; exact f.uniq, ?_, hy', ?_, ?_, ?_, ?_⟩
+  · rw [← kx, ← hkey, ky]; exact findId_self wfB hy'
+  · rw [← kx]; exact f.hd'
+  · rw [← kx, ← by']; exact f.cnty
+  · rw [← dx, ← dy]; exact f.hjoin
+  · rw [← kx]; exact f.paly
+
+theorem kconn_contentW {A B : Table D} {K : Nat} {st : Bool} (join : D → D → Bool) (wfB : WF B K st) (hle : ContentLeW st A B)
+    (k1 k2 : Seq) (h : KConn A st join k1 k2) : KConn B st join k1 k2 := by
+  induction h with
+  | refl => exact KConn.refl _
+  | step _ r ih => exact KConn.step ih (krel_contentW join wfB hle _ _ r)
+
+end Compress
